@@ -816,7 +816,17 @@ def check_c16(ctx: Ctx, job):
             return
         # 2. the mismatching state must be rejected with an error, yielding nothing
         loader = sdl.build(cfg_l)
+        if job.get("mid_epoch"):
+            # the loading loader is itself in the middle of an epoch (its workers are up) when the checkpoint is loaded
+            s.begin_op()
+            try:
+                it = iter(loader)
+                sdl.take(it, s)
+            except Exception:
+                pass
         loader.load_state_dict(sd)
+        it = None
+        gc.collect()
         outcome = None
         s.begin_op()
         try:
@@ -907,7 +917,7 @@ def gen_c16(ctx: Ctx, n: int):
         if sdl.is_iter(cfg):
             cfg["sizes"] = (list(cfg["sizes"]) * 5)[: max(Ws, 1)]
         jobs.append({"cfg": cfg, "seed": ctx.rng.randrange(1 << 30), "Wl": Wl, "k": ctx.rng.choice([0, 1, 2, 3, 5]),
-                     "sd_before_empty": ctx.rng.random() < 0.5})
+                     "sd_before_empty": ctx.rng.random() < 0.5, "mid_epoch": ctx.rng.random() < 0.4})
     return jobs
 
 
